@@ -96,6 +96,9 @@ pub fn make(p: Params) -> crate::ctl::ScenarioFn {
             let logs: Arc<Mutex<Vec<Vec<Sub>>>> =
                 Arc::new(Mutex::new(vec![vec![]; p.openers + 2]));
             let errs: Arc<Mutex<Vec<String>>> = Arc::new(Mutex::new(vec![]));
+            // every submission that was STARTED, in order (a frame can be on the wire although its submission returned an
+            // error — the error came with a later record of the same packet or with the flush)
+            let attempts: Arc<Mutex<Vec<Vec<Sub>>>> = Arc::new(Mutex::new(vec![vec![]; p.openers + 2]));
 
             // non-initial state: one complete open + write before the race
             for k in 0..p.pre_packets {
@@ -120,8 +123,10 @@ pub fn make(p: Params) -> crate::ctl::ScenarioFn {
                 let logs = logs.clone();
                 let errs = errs.clone();
                 let slot = p.openers;
+                let attempts = attempts.clone();
                 handles.push(tokio::spawn(async move {
                     hpoint("h.hb.start").await;
+                    attempts.lock().unwrap()[slot].push(Sub::Hreq);
                     match within(sess.write_control_frame(Frame::control(Command::HeartRequest, 0)))
                         .await
                     {
@@ -136,6 +141,7 @@ pub fn make(p: Params) -> crate::ctl::ScenarioFn {
                 let logs = logs.clone();
                 let errs = errs.clone();
                 let p = p.clone();
+                let attempts = attempts.clone();
                 handles.push(tokio::spawn(async move {
                     let tag = t as u8 + 1;
                     hpoint("h.opener.start").await;
@@ -152,8 +158,10 @@ pub fn make(p: Params) -> crate::ctl::ScenarioFn {
                     };
                     let id = st.id();
                     logs.lock().unwrap()[t].push(Sub::Syn(id));
+                    attempts.lock().unwrap()[t].push(Sub::Syn(id));
                     sess.disable_buffering();
                     let dest = pat_vec(tag, 0, 0, 9);
+                    attempts.lock().unwrap()[t].push(Sub::Psh(id, dest.clone()));
                     match within(sess.write_data_frame(id, Bytes::from(dest.clone()))).await {
                         Some(Ok(())) => logs.lock().unwrap()[t].push(Sub::Psh(id, dest)),
                         Some(Err(e)) => {
@@ -167,6 +175,7 @@ pub fn make(p: Params) -> crate::ctl::ScenarioFn {
                     }
                     for c in 0..p.chunks {
                         let d = pat_vec(tag, 0, 100 * (c + 1), if p.big_first_chunk && c == 0 { 70_000 } else { 5 + c });
+                        attempts.lock().unwrap()[t].push(Sub::Psh(id, d.clone()));
                         if p.forwarder_of == t {
                             // the path handler.rs / udp code use: queue to the forwarding task
                             if st.send_data(Bytes::from(d.clone())).is_ok() {
@@ -239,8 +248,11 @@ pub fn make(p: Params) -> crate::ctl::ScenarioFn {
                 out.viol("C11:settings-count", format!("wire: {}", fmt_frames(&real)));
             }
             let logs = logs.lock().unwrap();
+            let attempts = attempts.lock().unwrap();
             let mut accounted = if faulty { real.iter().filter(|f| f.cmd == SETTINGS).count().min(1) } else { 1usize }; // settings
             for (t, log) in logs.iter().enumerate() {
+                // after an injected fault the reference is what was started, not what returned Ok
+                let log = if faulty { &attempts[t] } else { log };
                 if log.is_empty() {
                     continue;
                 }
